@@ -51,8 +51,10 @@ type FuncSpec struct {
 	NonNil    bool // result (pointer/interface) is non-nil
 	NoInline  bool
 	Inline    bool
-	NoReturn  bool // calling it never returns (log.Fatal, os.Exit): treated as panic
-	NoEscape  bool // structural: recover-frame rule
+	NoReturn  bool              // calling it never returns (log.Fatal, os.Exit): treated as panic
+	NoEscape  bool              // structural: recover-frame rule
+	CallCount map[string]string // callee short name -> ghost variable counting its calls from this function
+	Preserves []string          // ghost names that survive this contract's "modifies *"
 	// AssumeResult: callee short name -> conditions on its result assumed at this function's call sites
 	AssumeResult map[string][]Clause
 	FuncType     bool // contract of a function type (applies to dynamic calls)
@@ -380,6 +382,17 @@ func (fs *FuncSpec) addDirective(word, rest, where string) error {
 		}
 		name := strings.TrimSpace(rest[:i])
 		fs.CallPre[name] = append(fs.CallPre[name], c)
+	case "callcount":
+		// callcount <callee short name>: <ghost var> — the ghost variable counts the calls of that callee made
+		// by this function (a definitional ghost, bumped by the engine after each such call returns)
+		i := strings.Index(rest, ": ")
+		if i < 0 {
+			return fmt.Errorf("callcount <callee>: <ghost var>")
+		}
+		if fs.CallCount == nil {
+			fs.CallCount = map[string]string{}
+		}
+		fs.CallCount[strings.TrimSpace(rest[:i])] = strings.TrimSpace(rest[i+2:])
 	case "assume-result":
 		// assume-result <callee short name>: expr over the callee's parameters and result —
 		// the contract is stated for the executions in which this call ends like that
@@ -446,6 +459,13 @@ func (fs *FuncSpec) addDirective(word, rest, where string) error {
 				return err
 			}
 			fs.Modifies = append(fs.Modifies, c)
+		}
+	case "preserves":
+		// preserves g1, g2: ghost fields / ghost variables that a "modifies *" of this contract leaves alone
+		for _, part := range strings.Split(rest, ",") {
+			if part = strings.TrimSpace(part); part != "" {
+				fs.Preserves = append(fs.Preserves, part)
+			}
 		}
 	case "check":
 		for _, k := range strings.Split(rest, ",") {
